@@ -1,27 +1,64 @@
 //! C15 helper: the significant-token view of texts, computed with the real lexer.
 //!   c15 canon   stdin: one text per line as hex utf-8;  stdout: per line  `<line> <kind> <hex text>` triples separated by ' | '
+//!   c15 lines   same input; per text the formatter's view of each line: `<skip> <k> <kind>*` separated by ' | ' - skip = the line
+//!               lies in a block comment / a token spanning lines / a pragma's continuation, or is blank; the kinds are those of the
+//!               tokens the formatter assigns to the line (comments and pragmas excluded) - a transcription of the first loop of
+//!               format_document; the model (Model/FmtIndent.v) classifies the lines from them
+//!   c15 kinds   same input; `<Debug name>=<number>` for every token: cross-check of the translator's numbering
 //!   every token except white space is significant; keyword texts are upper-cased (keywords compare case-insensitively);
 //!   a token belongs to the line it starts on.
 use std::io::BufRead;
 use trust_syntax::{lex, TokenKind};
+fn hex_in(line: &str) -> String {
+    let bytes: Vec<u8> = (0..line.trim().len() / 2).map(|i| u8::from_str_radix(&line.trim()[2 * i..2 * i + 2], 16).unwrap_or(0)).collect();
+    String::from_utf8_lossy(&bytes).to_string()
+}
+fn line_of(src: &str, off: usize) -> usize { src.as_bytes()[..off.min(src.len())].iter().filter(|b| **b == b'\n').count() }
+fn canon(src: &str) -> String {
+    let mut out = Vec::new();
+    let mut ln = 0usize; let mut pos = 0usize;
+    for t in lex(src) {
+        let a = u32::from(t.range.start()) as usize; let b = u32::from(t.range.end()) as usize;
+        ln += src[pos..a].matches('\n').count(); pos = a;
+        if t.kind == TokenKind::Whitespace { continue; }
+        let text = if t.kind.is_keyword() { src[a..b].to_ascii_uppercase() } else { src[a..b].to_string() };
+        out.push(format!("{ln} {} {}", t.kind as u16, text.bytes().map(|x| format!("{x:02x}")).collect::<String>()));
+    }
+    out.join(" | ")
+}
+fn lines(src: &str) -> String {
+    let texts: Vec<&str> = src.split('\n').collect();
+    let n = texts.len();
+    let mut skip = vec![false; n];
+    let mut kinds: Vec<Vec<u16>> = vec![Vec::new(); n];
+    for t in lex(src) {
+        let a = u32::from(t.range.start()) as usize; let b = u32::from(t.range.end()) as usize;
+        let first = line_of(src, a); let last = line_of(src, b.saturating_sub(1));
+        match t.kind {
+            TokenKind::BlockComment => { for i in first..=last { if i < n { skip[i] = true; } } continue; }
+            TokenKind::LineComment => continue,
+            TokenKind::Pragma => { for i in first + 1..=last { if i < n { skip[i] = true; } } continue; }
+            k if k.is_trivia() => continue,
+            _ => {}
+        }
+        if last > first { for i in first..=last { if i < n { skip[i] = true; } } }
+        if first < n { kinds[first].push(t.kind as u16); }
+    }
+    (0..n).map(|i| {
+        let blank = texts[i].trim().is_empty();
+        format!("{} {}{}", (skip[i] || blank) as u8, kinds[i].len(), kinds[i].iter().map(|k| format!(" {k}")).collect::<String>())
+    }).collect::<Vec<_>>().join(" | ")
+}
+fn kinds(src: &str) -> String {
+    lex(src).into_iter().filter(|t| t.kind != TokenKind::Whitespace).map(|t| format!("{:?}={}", t.kind, t.kind as u16)).collect::<Vec<_>>().join(" ")
+}
 fn main() {
+    let mode = std::env::args().nth(1).unwrap_or_else(|| "canon".into());
     let stdin = std::io::stdin();
     for line in stdin.lock().lines() {
-        let line = line.unwrap();
-        let bytes: Vec<u8> = (0..line.trim().len() / 2).map(|i| u8::from_str_radix(&line.trim()[2 * i..2 * i + 2], 16).unwrap_or(0)).collect();
-        let src = String::from_utf8_lossy(&bytes).to_string();
-        let r = std::panic::catch_unwind(|| {
-            let mut out = Vec::new();
-            let mut ln = 0usize; let mut pos = 0usize;
-            for t in lex(&src) {
-                let a = u32::from(t.range.start()) as usize; let b = u32::from(t.range.end()) as usize;
-                ln += src[pos..a].matches('\n').count(); pos = a;
-                if t.kind == TokenKind::Whitespace { continue; }
-                let text = if t.kind.is_keyword() { src[a..b].to_ascii_uppercase() } else { src[a..b].to_string() };
-                out.push(format!("{ln} {} {}", t.kind as u16, text.bytes().map(|x| format!("{x:02x}")).collect::<String>()));
-            }
-            out.join(" | ")
-        });
+        let src = hex_in(&line.unwrap());
+        let m = mode.clone();
+        let r = std::panic::catch_unwind(move || match m.as_str() { "lines" => lines(&src), "kinds" => kinds(&src), _ => canon(&src) });
         match r { Ok(s) => println!("{s}"), Err(_) => println!("PANIC") }
     }
 }
